@@ -3,6 +3,7 @@ CONSTANTS
   Mode = "dump"
   MaxG = 2
   MaxFr = 2
+  Big = FALSE
 INVARIANTS
   Fidelity
   Emit
